@@ -1,6 +1,15 @@
 package props
 
-import "osmolint/internal/rules"
+import (
+	"fmt"
+	"sort"
+	"strings"
+
+	"golang.org/x/tools/go/ssa"
+
+	"osmolint/internal/ir"
+	"osmolint/internal/rules"
+)
 
 func init() {
 	register(&Prop{
@@ -9,7 +18,7 @@ func init() {
 			"that the unlock end time is block time + duration; that matured-unlock is guarded by the unlocking flag and the end-time comparison against block time and pays the lock owner; that owner guards precede every mutation.",
 		NotCovered:  []string{"index = primary records for every query shape over histories", "sum-tree internals (C16)", "conservation of owner balance + locked as a number"},
 		Assumptions: []string{"bank keeper and KV store are the effect primitives", "an error exit of a message reverts its store branch (SDK)"},
-		MinObl:      97,
+		MinObl:      120,
 		Run:         runC06,
 	})
 }
@@ -155,4 +164,96 @@ func runC06(c *rules.Ctx) {
 	c.CallArg(MS+"ExtendLockup", "lockupkeeper.Keeper.ExtendLockup", 2, "msg.ID", "on the message's lock")
 	c.CallArg(MS+"SetRewardReceiverAddress", "lockupkeeper.Keeper.SetLockRewardReceiverAddress", 3, "sdk.AccAddressFromBech32(msg.Owner)#0", "the actor passed is the message's signer")
 	c.FailsWhen(K+"SetLockRewardReceiverAddress", "ne({LOCKBYID}.Owner, sdk.AccAddress.String(owner))", "only the owner may redirect rewards", rules.GuardOpt{Before: "lockupkeeper.Keeper.setLock"})
+	// ---- readers and writers of the reference indexes agree on the key layout ------------------------------------
+	lockIndexAgreement(c)
+	c.WhoMayCall(K+"LockIteratorDenom", []string{}, "the prefix-only denom iterator (no separator after the denom: gamm/pool/1 would also match gamm/pool/10) has no caller")
+	c.WhoMayCall(K+"AccountLockIteratorDenom", []string{}, "the prefix-only account+denom iterator has no caller")
+	c.Returns(K+"iteratorLongerDuration", 0, "storetypes.KVStore.Iterator(sdk.Context.KVStore(ctx,k.storeKey), lockupkeeper.combineKeys(prefix, lockupkeeper.getDurationKey(duration)), storetypes.PrefixEndBytes(prefix))", "longer-than-duration scan: from prefix|sep|duration to the end of the prefix (the separator after the last component excludes longer denoms)", "")
+	c.Returns(K+"iteratorDuration", 0, "storetypes.KVStorePrefixIterator(sdk.Context.KVStore(ctx,k.storeKey), lockupkeeper.combineKeys(prefix, lockupkeeper.getDurationKey(duration)))", "exact-duration scan: prefix|sep|duration", "")
+	c.Returns(K+"iteratorShorterDuration", 0, "storetypes.KVStore.Iterator(sdk.Context.KVStore(ctx,k.storeKey), prefix, lockupkeeper.combineKeys(prefix, lockupkeeper.getDurationKey(duration)))", "shorter-than-duration scan: from the prefix up to prefix|sep|duration", "")
+	c.Returns(K+"iteratorAfterTime", 0, "storetypes.KVStore.Iterator(sdk.Context.KVStore(ctx,k.storeKey), storetypes.PrefixEndBytes(lockupkeeper.combineKeys(prefix, lockupkeeper.getTimeKey(time))), storetypes.PrefixEndBytes(prefix))", "after-time scan: strictly after prefix|sep|time", "")
+	c.Returns(K+"iteratorBeforeTime", 0, "storetypes.KVStore.Iterator(sdk.Context.KVStore(ctx,k.storeKey), prefix, storetypes.PrefixEndBytes(lockupkeeper.combineKeys(prefix, lockupkeeper.getTimeKey(maxTime))))", "before-time scan: up to and including prefix|sep|time", "")
+}
+
+// lockIndexAgreement: every index iterator of iterator.go scans a key layout (index prefix, components in order, final
+// duration-or-time key) that one of the reference-key writers (durationLockRefKeys, lockRefKeys, syntheticLockRefKeys)
+// produces; the unlocking/not-unlocking prefix comes first on both sides.
+func lockIndexAgreement(c *rules.Ctx) {
+	classify := func(t *ir.Term) string {
+		s := t.String()
+		switch {
+		case strings.Contains(s, "getDurationKey"):
+			return "dur"
+		case strings.Contains(s, "getTimeKey"):
+			return "time"
+		case strings.Contains(s, "AccAddressFromBech32") || s == "addr":
+			return "addr"
+		case strings.HasSuffix(s, "Denom") || s == "denom":
+			return "denom"
+		case strings.HasPrefix(s, "@lockuptypes.KeyPrefix"):
+			return strings.TrimPrefix(s, "@lockuptypes.")
+		case strings.HasPrefix(s, "lockupkeeper.unlockingPrefix("):
+			return "unlocking"
+		}
+		return "?" + s
+	}
+	writers := map[string]bool{}
+	for _, w := range []string{"durationLockRefKeys", "lockRefKeys", "syntheticLockRefKeys"} {
+		f := c.Fn("x/lockup/keeper." + w)
+		if f == nil {
+			continue
+		}
+		for _, call := range f.CallsTo("lockupkeeper.combineKeys") {
+			var parts []string
+			for _, a := range f.CallArgs(call) {
+				parts = append(parts, classify(a))
+			}
+			writers[strings.Join(parts, "|")] = true
+		}
+	}
+	var ws []string
+	for w := range writers {
+		ws = append(ws, w)
+	}
+	sort.Strings(ws)
+	c.Record("S", "x/lockup/keeper.lockRefKeys", "layouts", "the reference-key writers produce the eight index layouts", len(ws) == 8, strings.Join(ws, " ; "), "")
+	final := map[string]string{"lockupkeeper.Keeper.iteratorAfterTime": "time", "lockupkeeper.Keeper.iteratorBeforeTime": "time", "lockupkeeper.Keeper.iteratorDuration": "dur",
+		"lockupkeeper.Keeper.iteratorLongerDuration": "dur", "lockupkeeper.Keeper.iteratorShorterDuration": "dur"}
+	n := 0
+	for _, fn := range c.P.AllFuncs() {
+		name := ir.FuncName(fn)
+		if !strings.HasPrefix(name, "lockupkeeper.Keeper.") || !strings.Contains(name, "LockIterator") || fn.Parent() != nil || !strings.HasSuffix(c.P.File(fn.Pos()), "x/lockup/keeper/iterator.go") {
+			continue
+		}
+		f := c.Wrap(fn)
+		for _, b := range fn.Blocks {
+			ret, ok := b.Instrs[len(b.Instrs)-1].(*ssa.Return)
+			if !ok || len(ret.Results) == 0 {
+				continue
+			}
+			call, ok := ret.Results[0].(*ssa.Call)
+			if !ok {
+				continue
+			}
+			kind, known := final[f.CalleeName(call)]
+			if !known {
+				continue // prefix-only iterators are covered by the who-may-call rules
+			}
+			n++
+			args := f.CallArgs(call)
+			okLayout, detail := false, "prefix argument is not a combineKeys call"
+			if len(args) >= 3 && args[2].Op == "call" && args[2].Name == "lockupkeeper.combineKeys" {
+				var parts []string
+				for _, a := range args[2].Args {
+					parts = append(parts, classify(a))
+				}
+				detail = strings.Join(parts, "|") + "|" + kind
+				if len(parts) >= 2 && parts[0] == "unlocking" {
+					okLayout = writers[strings.Join(parts[1:], "|")+"|"+kind]
+				}
+			}
+			c.Record("S", name, "layout", "the iterator scans a key layout that the reference-key writers produce (same index prefix, same component order, duration or time key last, unlocking prefix first)", okLayout, detail, c.P.Rel(fn.Pos()))
+		}
+	}
+	c.Record("S", "x/lockup/keeper/iterator.go", "count", "index iterators found", n >= 14, fmt.Sprintf("%d iterators checked against %d writer layouts", n, len(ws)), "")
 }
